@@ -46,6 +46,18 @@ func genPart(r *Rng, i int, nch int, scale int64, base int64) [][]Ev {
 		bs = append(bs, flat[:n])
 		flat = flat[n:]
 	}
+	// late arrivals: a write call whose time range overlaps what the chunk already holds (its oldest event is older
+	// than the newest stored one, its newest is newer): the chunk's hull in the time index has to be widened on both ends
+	if r.Chance(1, 4) {
+		for k := 1; k < len(bs); k++ {
+			prev := bs[k-1]
+			if len(bs[k]) >= 2 && r.Chance(2, 3) {
+				if late := prev[len(prev)-1].Ts - 10*scale*int64(r.Range(1, 3)); late > 0 {
+					bs[k][0].Ts = late
+				}
+			}
+		}
+	}
 	return bs
 }
 
@@ -165,6 +177,22 @@ func drawParams(r *Rng, parts []PartSpec, before []PartObs) Params {
 			p.Before = clip(c.MinTs + delta())
 		default:
 			p.Before = clip(c.MaxTs + delta())
+		}
+		// a chunk whose hull in the time index does not cover its newest event (never on a healthy index): aim right
+		// behind the hull, where BEFORE would take the chunk although it holds newer events
+		for _, q := range sel {
+			for _, cc := range before[q].Chunks {
+				nw := int64(-1 << 63)
+				for _, t := range cc.Ts {
+					if t > nw {
+						nw = t
+					}
+				}
+				if len(cc.Ts) > 0 && nw > cc.MaxTs && r.Chance(2, 3) {
+					p.Before = clip(cc.MaxTs + 1)
+					p.Max = -1
+				}
+			}
 		}
 	}
 	if r.Chance(40, 100) {
